@@ -319,6 +319,7 @@ func TestCheck(t *testing.T) {
 	}
 
 	// 2. senders
+	checkAfterRejectedEncodes(r)
 	checkSenders(r)
 
 	// 3. CBOR decoder totality
@@ -424,6 +425,63 @@ func TestCheck(t *testing.T) {
 	dec.flush()
 	r.Count("worker_deaths", int64(dec.iso.Deaths))
 	t.Logf("violations: %d", r.Violations())
+}
+
+// checkAfterRejectedEncodes: an encode that the encoder refuses (undefined
+// CID, a field over its cap) leaves nothing behind: the same valid message
+// encodes to the same bytes as before, in CBOR and JSON, and still round-trips.
+func checkAfterRejectedEncodes(r *vp.Recorder) {
+	valid := message.Message{Cid: cids()[2], Addrs: [][]byte{[]byte("addr-one"), []byte("addr-two")}, ExtraData: []byte("extra"), OrigPeer: fixture.Key("ed25519", 7).ID.String()}
+	enc := func(m *message.Message) (cb, js []byte, cerr, jerr error, panicked string) {
+		var buf bytes.Buffer
+		if pn, pm := vp.Guard(func() { cerr = m.MarshalCBOR(&buf); js, jerr = json.Marshal(m) }); pn {
+			return nil, nil, nil, nil, firstLine(pm)
+		}
+		return buf.Bytes(), js, cerr, jerr, ""
+	}
+	baseC, baseJ, e1, e2, pn := enc(&valid)
+	if pn != "" || e1 != nil || e2 != nil {
+		r.Violation("cbor:encode-error", "after-rejected|baseline", fmt.Sprint(pn, e1, e2), nil)
+		return
+	}
+	big := func(n int) []byte { return bytes.Repeat([]byte{'x'}, n) }
+	rejected := []struct {
+		name string
+		m    message.Message
+	}{
+		{"undefined-cid", message.Message{Addrs: [][]byte{[]byte("a")}}},
+		{"orig-peer-over-cap", message.Message{Cid: cids()[1], OrigPeer: string(big(cbg.MaxLength + 1))}},
+		{"address-over-cap", message.Message{Cid: cids()[1], Addrs: [][]byte{[]byte("ok"), big(cbg.ByteArrayMaxLen + 1)}}},
+		{"extra-data-over-cap", message.Message{Cid: cids()[1], Addrs: [][]byte{[]byte("ok")}, ExtraData: big(cbg.ByteArrayMaxLen + 1)}},
+		{"too-many-addresses", message.Message{Cid: cids()[1], Addrs: make([][]byte, cbg.MaxLength+1)}},
+	}
+	for _, rj := range rejected {
+		for rep := 1; rep <= 2; rep++ {
+			key := fmt.Sprintf("after-rejected|%s|%d", rj.name, rep)
+			if !r.Mine(key) {
+				continue
+			}
+			r.Eval(key, true)
+			_, _, cerr, _, pn := enc(&rj.m)
+			if pn != "" {
+				r.Violation("cbor:encode-panic", key, pn, nil)
+				continue
+			}
+			if cerr == nil {
+				r.Outcome("encoder-accepted-" + rj.name)
+			}
+			cb, js, e1, e2, pn := enc(&valid)
+			if pn != "" || e1 != nil || e2 != nil {
+				r.Violation("encode:valid-message-fails-after-a-rejected-one", key, fmt.Sprint(pn, e1, e2), nil)
+				continue
+			}
+			if !bytes.Equal(cb, baseC) || !bytes.Equal(js, baseJ) {
+				r.Violation("encode:valid-message-encodes-differently-after-a-rejected-one", key, fmt.Sprintf("after an encode rejected for %s, the same valid message encodes to %x... (%d bytes) instead of %x... (%d bytes)", rj.name, trunc(cb), len(cb), trunc(baseC), len(baseC)), nil)
+				continue
+			}
+			checkRoundTrip(r, key, &valid)
+		}
+	}
 }
 
 func checkRoundTrip(r *vp.Recorder, key string, m *message.Message) {
